@@ -203,6 +203,18 @@ pub fn rustls_client_config(pki: &Pki) -> Arc<rustls::ClientConfig> {
     Arc::new(rustls::ClientConfig::builder().with_root_certificates(roots).with_no_client_auth())
 }
 
+/// rustls client restricted to TLS 1.2 (more handshake flights than 1.3: more places to stall)
+pub fn rustls_client_config_tls12(pki: &Pki) -> Arc<rustls::ClientConfig> {
+    use rustls_pki_types::CertificateDer;
+    let mut roots = rustls::RootCertStore::empty();
+    roots.add(CertificateDer::from(pki.ca1_der.clone())).unwrap();
+    Arc::new(
+        rustls::ClientConfig::builder_with_protocol_versions(&[&rustls::version::TLS12])
+            .with_root_certificates(roots)
+            .with_no_client_auth(),
+    )
+}
+
 pub fn openssl_acceptor(id: &Ident) -> openssl::ssl::SslAcceptor {
     use openssl::{pkey::PKey, ssl::{SslAcceptor, SslMethod}, x509::X509};
     let mut b = SslAcceptor::mozilla_intermediate_v5(SslMethod::tls()).unwrap();
@@ -215,8 +227,13 @@ pub fn openssl_acceptor(id: &Ident) -> openssl::ssl::SslAcceptor {
 }
 
 pub fn openssl_connector(pki: &Pki) -> openssl::ssl::SslConnector {
+    openssl_connector_max(pki, None)
+}
+
+pub fn openssl_connector_max(pki: &Pki, max: Option<openssl::ssl::SslVersion>) -> openssl::ssl::SslConnector {
     use openssl::{ssl::{SslConnector, SslMethod}, x509::{store::X509StoreBuilder, X509}};
     let mut b = SslConnector::builder(SslMethod::tls()).unwrap();
+    b.set_max_proto_version(max).unwrap();
     // exactly one trust anchor: replace the default store
     let mut store = X509StoreBuilder::new().unwrap();
     store.add_cert(X509::from_der(&pki.ca1_der).unwrap()).unwrap();
